@@ -148,6 +148,22 @@ def run_case(desc):
     if lim2:
         obs.nontrivial = True          # second order with limit leaves is covered by the main groups (the reference above is first order only)
         return obs.result()
+    # ---- Jacobian-vector product by the double-backward trick: the first-level cotangent is exactly zero
+    try:
+        v0 = torch.zeros_like(y).requires_grad_()
+        gz = torch.autograd.grad(y, leaves[:2], grad_outputs=v0, create_graph=True, allow_unused=True)
+        U = [torch.randn(l.shape, generator=tg, dtype=DT) for l in leaves[:2]]
+        have = [(gi, u) for gi, u in zip(gz, U) if gi is not None and gi.requires_grad]
+        jvp = torch.autograd.grad([a_ for a_, _ in have], v0, grad_outputs=[u_ for _, u_ in have])[0] if have else torch.zeros_like(y)
+        v2 = torch.zeros_like(y2).requires_grad_()
+        gz2 = torch.autograd.grad(y2, leaves2[:2], grad_outputs=v2, create_graph=True)
+        jvp2 = torch.autograd.grad(list(gz2), v2, grad_outputs=U)[0]
+        err = float((jvp.reshape(-1) - jvp2.reshape(-1)).abs().max())
+        obs.check(err <= 1e-9 * (1 + float(jvp2.abs().max())), "jvp_zero_cotangent:" + mech,
+                  "J.u by double backward (first-level cotangent exactly zero) differs from the same rule's by %.3e" % err)
+        obs.count("extra_jvp_compared")
+    except Exception as e:
+        obs.exc_violation("jvp_zero_cotangent:" + mech, e)
     V = [torch.randn(l.shape, generator=tg, dtype=DT) for l in leaves[:2]]
     try:
         H = sum((gi * v).sum() for gi, v in zip(g[:2], V) if gi is not None and gi.requires_grad)
